@@ -4,18 +4,33 @@ import json, subprocess
 
 CLAIMED = {
  # id: (level text, level note, technique, design ref)
+ "C01": ("WriteToFile: the text handed to go/parser is proved to be header(pkg name, generator) + package clause + import block + rendered body verbatim, for the path <SourceDir>/<base>.<generator>.go; a written file went through parse(ParseComments) -> SortImports -> gofumpt(LangVersion 'go'+module GoVersion, ModulePath) -> go/format in exactly this order (ghost pipeline log); writeImports prints exactly the tracker's table, sorted; Render appends fragments verbatim in order. Partial: that the formatters produce a parseable gofmt/gofumpt fixed point and keep declaration order is an ASSUMED contract on go/parser, go/format, gofumpt (E-fmt).",
+         "E-fmt (formatter behaviour) assumed; os/io/fmt/path extern contracts; Snippet.Frag/IsNil, Context.Package, Package.* interface observers assumed pure (devirtualised where a proved contract exists); the odd os.IsNotExist/Create branch can leave an empty file (assumed unreachable)",
+         "deductive verification: functional postconditions over ghost parsed-text and formatter-pipeline logs", "3/C01"),
+ "C02": ("Effect ordering over a ghost file-system log, for every package/generator/error position: WriteToFile parses before it opens (a parse error is returned, nothing opened); pkgExecute has produced NO effect when a generator or deferred callback returns a non-swallowed error (all generators finish before the first write); only ErrSkip/ErrIgnore are swallowed and the error is returned unchanged by doGenerate*; Execute touches gengo.sum only when All is set, only after every pkgExecute returned nil, and every gengo.sum effect comes after all package effects (crash-prefix property).",
+         "POSIX behaviour of os.OpenFile/Create (a failed open has no effect) assumed; generators/callbacks assumed to perform no file-system effect of their own and not to write the framework's unexported fields (preserves); kill during Save itself not covered; the error-wrapping text (generator name + package path) is not a postcondition",
+         "deductive verification: protocol postconditions and loop invariants over ghost effect/call logs", "3/C02"),
  "C03": ("Import tracker: representation invariant (path->name and name->path mutually inverse, every bound name a valid non-keyword identifier, std names reserved) is preserved by add for every path; add always registers the path (fallback numbering), is idempotent, and leaves every other binding unchanged (whole-map postcondition + frame); LocalNameOf/PathOf/Imports observers; golangTrackerLocalName/toLocalName total. Partial: rawNamer.Name and the import block printer are added as built; 'none unused' is not decided for third-party snippets.",
          "token.IsIdentifier, strconv.Itoa, strings.Split, slices.Index/Backward/Reverse extern contracts; camelcase.LowerCamelCase (package-level function value) assumed pure; termination of the fallback numbering loop not verified",
          "deductive verification: representation invariant + whole-map postconditions + frame obligations discharged by SMT", "3/C03"),
  "C04": ("For every map range in the anchored code that is under contract (IsGeneratorEnabled, merge; more as built) the result is proved equal to a function of the map's CONTENTS with the iteration order modelled as an arbitrary duplicate-free enumeration of the key set: order cannot leak. Partial: whole-run determinism and the second-run fixed point are not decided.",
          "determinism of go/packages, go/types, gofumpt, dirhash assumed; statements over histories of runs not decided; only the functions listed in evidence.functions_under_contract are covered",
          "deductive verification (VCs from go/ast+go/types, z3/cvc5): order-independence under permuted map ranges", "3/C04"),
+ "C05": ("Freshness and frame: gengoCtx.New returns a freshly allocated generator (never a registered prototype: proved for reflect.New, assumed contract for custom New); newGenfile/NewDefaultImportTracker/NewRawNamer/NewSnippetWriter return fresh objects wired to each other (writer -> that genfile's buffer, namer -> that genfile's tracker); pkgExecute's call log never contains a prototype as the invoked generator; pkgExecute preserves every pre-existing framework object (typed frame obligations).",
+         "custom GeneratorNewer.New assumed to return a fresh generator; generators' own package-level state is outside (assumed absent); universe memo caches idempotent (argued)",
+         "deductive verification: freshness postconditions + frame obligations + call-log invariant", "3/C05"),
  "C06": ("Enablement rule (IsGeneratorEnabled == the statement's rule, for every tag map and every iteration order), merge precedence (last map that defines a key wins, for every list of maps), tag extraction; dispatch/defer ordering added as built.",
          "Generator.Name assumed a pure observer; strings.Join/HasPrefix extern contracts; dispatch loop obligations listed in evidence when present",
          "deductive verification: functional postconditions + loop invariants discharged by SMT", "3/C06"),
+ "C07": ("Frame over the ghost effect log, for every run: every effect of pkgExecute is Open/Write on <SourceDir>/<base>.<generator>.go of the processed package or Remove of a file OF THAT PACKAGE whose base name starts with <base>. (with the dot); a cached package and an early error produce no effect; Execute's effects are package effects of local packages that are direct (or any when All) followed only by effects on <Dir>/gengo.sum, and none of the latter without All; Filename/IsZero observers.",
+         "generator names assumed separator-free (written path vs removed path are not proved distinct); effects of user code assumed absent; files not in the package's compiled syntax are never candidates",
+         "deductive verification: whole-log postconditions (every new effect satisfies the path predicate)", "3/C07"),
  "C08": ("pkgChanged: Force, missing previous file, missing entry, empty current sum or differing sums imply 'changed' and 'unchanged' implies equal recorded sums (all inputs); File.Sum observer. Partial: Bytes/Load round trip and Execute ordering added as built; convergence over histories not decided.",
          "dirhash is a function of directory contents (assumed); histories of runs not decided",
          "deductive verification: postconditions of pkgChanged/File.Sum/Universe.SumFile discharged by SMT", "3/C08"),
+ "C09": ("template.Frag and printer.Frag are proved equal to recursive specifications taken from the statement (every rune preserved in order, @name replaced by the complete rendering of its argument or nothing for nil/empty, one apostrophe consumed, bare '@' kept, no re-scan; %v/%T/%% and verbatim text; panics exactly when a placeholder is unbound / a verb is unknown / an argument is missing), Comment, GoDirective, Block, Fragments, Snippets, fn.Frag, Render against their specs; yield-after-stop discipline.",
+         "text/scanner delivers []rune(format) (false for a leading U+FEFF: known finding); ID/Value modelled as pure constructors; rendered snippets assumed not to mutate the template/printer they are rendered into (stable); T() constructor not under contract",
+         "deductive verification: iterator bodies against recursive executable spec functions (fuel-encoded), loop invariants in accumulator form", "3/C09"),
  "C12": ("ExtractCommentTags proved equal to a recursive specification (every line classified exactly once, order kept, values per key in order, default markers), splitKV proved against the statement (first '=' or ' '), oneOf. Partial: the comment index invariant of newPkg and Doc/Comment look-ups are added as built.",
          "strings.Trim / strings.IndexAny extern contracts; go/parser comment attachment assumed",
          "deductive verification: loop invariants against recursive executable spec functions", "3/C12"),
